@@ -9,7 +9,7 @@ from pydiverse.common import (
     Float,
     String,
 )
-from pydiverse.transform._internal.backend.sql import SqlImpl
+from pydiverse.transform._internal.backend.sql import SqlImpl, like_escape, like_operand
 from pydiverse.transform._internal.errors import NotSupportedError
 from pydiverse.transform._internal.ops import ops
 from pydiverse.transform._internal.tree import types
@@ -132,7 +132,7 @@ with SqliteImpl.impl_store.impl_manager as impl:
             "Use the 'case_sensitive_like' pragma to change this behaviour. "
             "See https://www.sqlite.org/pragma.html#pragma_case_sensitive_like",
         )
-        return x.startswith(y, autoescape=True)
+        return x.startswith(like_operand(y), **like_escape(y))
 
     @impl(ops.str_ends_with)
     def _str_ends_with(x, y):
@@ -141,7 +141,7 @@ with SqliteImpl.impl_store.impl_manager as impl:
             "Use the 'case_sensitive_like' pragma to change this behaviour. "
             "See https://www.sqlite.org/pragma.html#pragma_case_sensitive_like",
         )
-        return x.endswith(y, autoescape=True)
+        return x.endswith(like_operand(y), **like_escape(y))
 
     @impl(ops.str_contains)
     def _str_contains(x, y, allow_regex, true_if_regex_unsupported):
@@ -152,7 +152,7 @@ with SqliteImpl.impl_store.impl_manager as impl:
             "Use the 'case_sensitive_like' pragma to change this behaviour. "
             "See https://www.sqlite.org/pragma.html#pragma_case_sensitive_like",
         )
-        return x.contains(y, autoescape=True)
+        return x.contains(like_operand(y), **like_escape(y))
 
     @impl(ops.dt_millisecond)
     def _dt_millisecond(x):
